@@ -4,6 +4,7 @@ import MidnightZK.Proofs.C07.Eval
 import MidnightZK.Proofs.C07.ShaSpec
 import MidnightZK.Proofs.C07.Varlen
 import MidnightZK.Proofs.C07.GrainAll
+import MidnightZK.Proofs.C07.Sponge
 /-!
 # C07 — hash gadgets equal their reference functions on every message
 Property theorems (helper lemmas live in `MidnightZK/Proofs/C07`).
@@ -157,6 +158,45 @@ example :
     let ofNat := Fp.ofNat Gen.p
     some (varlen shippedFp ofNat perm 4 (vecBuffer 4 2 [⟨7⟩] ⟨99⟩) 1) = hash shippedFp ofNat perm [⟨7⟩] ∧
     hash shippedFp ofNat perm [⟨7⟩] ≠ some ⟨0⟩ := by
+  decide +kernel
+
+/-! ## Poseidon: sponge padding -/
+
+section
+variable {F : Type} [CommRing F]
+
+/-- What the sponge adds to its rate cells is the queue padded with zeros to a multiple of `RATE`:
+a shorter last chunk (`zip` over fewer cells in `squeeze`) has the effect of absorbing zeros.
+(`WIDTH = 3`, `RATE = 2`; `fuel` is the loop bound of the model, `queue.len() + 1` in `squeeze`.) -/
+theorem absorb_eq_zero_padded (perm : List F → List F) (fuel : Nat) (reg q : List F)
+    (h : q.length < 2 * fuel) :
+    absorbChunks 3 2 perm fuel reg q = absorbChunks 3 2 perm fuel reg (zeroPad 2 q) :=
+  absorbChunks_zeroPad perm fuel reg q h
+
+/-- **sponge_padding_injective** (fixed-length mode, `init(Some(len))`): the initial capacity cell
+holds `len` and the absorbed sequence is the zero-padded input, and the pair (length, absorbed
+sequence) determines the input: two inputs absorbed identically with the same capacity are equal.
+In particular `[a]` and `[a, 0]` are separated by the capacity cell. Any rate. -/
+theorem sponge_padding_injective_fixed (rate : Nat) (l1 l2 : List F)
+    (hlen : l1.length = l2.length) (h : zeroPad rate l1 = zeroPad rate l2) : l1 = l2 :=
+  fixed_absorbed_injective rate l1 l2 hlen h
+
+/-- **sponge_padding_injective** (unbounded / transcript mode, `init(None)`): `squeeze` appends the
+queue length to the queue before absorbing; the absorbed (zero-padded) sequence then determines the
+queue, for all queue lengths `< bound` on which the embedding of lengths does not vanish (every
+length below the characteristic: `F::from(len as u64)` with `len < 2^64 < p`). -/
+theorem sponge_padding_injective_transcript (rate : Nat) (ofNat : Nat → F) (bound : Nat)
+    (hnz : ∀ a, 0 < a → a < bound → ofNat a ≠ 0)
+    (l1 l2 : List F) (h1 : l1.length < bound) (h2 : l2.length < bound)
+    (h : zeroPad rate (l1 ++ [ofNat l1.length]) = zeroPad rate (l2 ++ [ofNat l2.length])) : l1 = l2 :=
+  transcript_absorbed_injective rate ofNat bound hnz l1 l2 h1 h2 h
+
+end
+
+/-- Non-vacuity: in transcript mode `[a]` and `[a, 1]` (which would collide without the appended
+length: `[a, 1]` vs `[a, 1, 2, 0]`) are absorbed differently; the 2^64 lengths of a `usize` queue are
+below the modulus. -/
+example : zeroPad 2 ([(7 : Int)] ++ [1]) ≠ zeroPad 2 ([7, 1] ++ [2]) ∧ 2 ^ 64 < Gen.p := by
   decide +kernel
 
 /-! ## SHA-2 / RIPEMD-160: constants, padding, spread arithmetic of the chips -/
@@ -314,6 +354,80 @@ theorem sha256_Sigma1_gate_rotations (l : Nat → Nat)
   generalize l 6 = e at *
   norm_num
   refine ⟨by omega, by omega, by omega, by omega⟩
+
+/-- **Σ₀ gate soundness** (`sha256_chip.rs`, gate `Σ₀(A)`, tables generated from the source). Let the
+limbs of `A` (10-9-11-2, range-checked by the lookups, `l b` = limb of `b` bits) and two 32-bit words
+`evn`, `odd` (recomposed from looked-up 11-11-10 limbs) satisfy the gate identity
+`Σ_rot Σᵢ 4^eᵢ·~limbᵢ = ~evn + 2·~odd`. Then `evn = Σ₀(A) = (A ⋙ 2) ⊕ (A ⋙ 13) ⊕ (A ⋙ 22)`: the
+gate leaves the prover no choice for the output word. -/
+theorem sha256_Sigma0_gate_sound (k iv : List Nat) (l : Nat → Nat)
+    (h10 : l 10 < 2 ^ 10) (h9 : l 9 < 2 ^ 9) (h11 : l 11 < 2 ^ 11) (h2 : l 2 < 2 ^ 2)
+    (evn odd : Nat) (he : evn < 2 ^ 32) (ho : odd < 2 ^ 32)
+    (hgate : (Gen.sha256Sigma0Gate.map (fun g => pow4Ip g.1 (g.2.map (fun b => spreadFuel b (l b))))).foldl
+        (· + ·) 0 = spreadFuel 32 evn + 2 * spreadFuel 32 odd) :
+    evn = (sha256P k iv).bigSigma0 (pow2Ip Gen.sha256DecA.1 (Gen.sha256DecA.2.map l)) := by
+  obtain ⟨hA, hrot⟩ := sha256_Sigma0_gate_rotations l h10 h9 h11 h2
+  simp only at hA hrot
+  set A := pow2Ip Gen.sha256DecA.1 (Gen.sha256DecA.2.map l) with hAdef
+  -- each inner product of spreaded limbs is the spread of the corresponding rotation
+  have hb : ∀ ka ∈ [(11, l 11), (9, l 9), (10, l 10), (2, l 2)], ka.2 < 2 ^ ka.1 := by
+    intro ka hka; simp at hka; rcases hka with rfl | rfl | rfl | rfl <;> assumption
+  have hb2 : ∀ ka ∈ [(9, l 9), (10, l 10), (2, l 2), (11, l 11)], ka.2 < 2 ^ ka.1 := by
+    intro ka hka; simp at hka; rcases hka with rfl | rfl | rfl | rfl <;> assumption
+  have hb3 : ∀ ka ∈ [(10, l 10), (2, l 2), (11, l 11), (9, l 9)], ka.2 < 2 ^ ka.1 := by
+    intro ka hka; simp at hka; rcases hka with rfl | rfl | rfl | rfl <;> assumption
+  have s1 := spread_concatLE _ hb
+  have s2 := spread_concatLE _ hb2
+  have s3 := spread_concatLE _ hb3
+  simp only [Gen.sha256Sigma0Gate, List.map, pow2Ip, List.zipWith, List.foldl, List.cons.injEq, and_true] at hrot
+  obtain ⟨r1, r2, r3⟩ := hrot
+  simp only [Gen.sha256Sigma0Gate, List.map, pow4Ip, List.zipWith, List.foldl] at hgate
+  simp only [bitsTotal, concatLE, spreadConcat] at s1 s2 s3
+  have e1 : spreadFuel 32 (rotr 32 A 2) = 4 ^ 30 * spreadFuel 2 (l 2) + 4 ^ 20 * spreadFuel 10 (l 10)
+      + 4 ^ 11 * spreadFuel 9 (l 9) + 4 ^ 0 * spreadFuel 11 (l 11) := by
+    rw [← r1]
+    have : 0 + 2 ^ 30 * l 2 + 2 ^ 20 * l 10 + 2 ^ 11 * l 9 + 2 ^ 0 * l 11
+        = l 11 + 2 ^ 11 * (l 9 + 2 ^ 9 * (l 10 + 2 ^ 10 * (l 2 + 2 ^ 2 * 0))) := by ring
+    rw [this]
+    have hs : (11 + (9 + (10 + (2 + 0)))) = 32 := rfl
+    rw [hs] at s1
+    rw [s1]; ring
+  have e2 : spreadFuel 32 (rotr 32 A 13) = 4 ^ 21 * spreadFuel 11 (l 11) + 4 ^ 19 * spreadFuel 2 (l 2)
+      + 4 ^ 9 * spreadFuel 10 (l 10) + 4 ^ 0 * spreadFuel 9 (l 9) := by
+    rw [← r2]
+    have : 0 + 2 ^ 21 * l 11 + 2 ^ 19 * l 2 + 2 ^ 9 * l 10 + 2 ^ 0 * l 9
+        = l 9 + 2 ^ 9 * (l 10 + 2 ^ 10 * (l 2 + 2 ^ 2 * (l 11 + 2 ^ 11 * 0))) := by ring
+    rw [this]
+    have hs : (9 + (10 + (2 + (11 + 0)))) = 32 := rfl
+    rw [hs] at s2
+    rw [s2]; ring
+  have e3 : spreadFuel 32 (rotr 32 A 22) = 4 ^ 23 * spreadFuel 9 (l 9) + 4 ^ 12 * spreadFuel 11 (l 11)
+      + 4 ^ 10 * spreadFuel 2 (l 2) + 4 ^ 0 * spreadFuel 10 (l 10) := by
+    rw [← r3]
+    have : 0 + 2 ^ 23 * l 9 + 2 ^ 12 * l 11 + 2 ^ 10 * l 2 + 2 ^ 0 * l 10
+        = l 10 + 2 ^ 10 * (l 2 + 2 ^ 2 * (l 11 + 2 ^ 11 * (l 9 + 2 ^ 9 * 0))) := by ring
+    rw [this]
+    have hs : (10 + (2 + (11 + (9 + 0)))) = 32 := rfl
+    rw [hs] at s3
+    rw [s3]; ring
+  have hlt : ∀ r, 0 < r → r < 32 → rotr 32 A r < 2 ^ 32 := by
+    intro r hr0 hr
+    unfold rotr
+    have h1 : A / 2 ^ r < 2 ^ (32 - r) := by
+      rw [Nat.div_lt_iff_lt_mul (Nat.two_pow_pos r), ← pow_add]
+      have : 32 - r + r = 32 := by omega
+      rw [this]; exact hA
+    have h2 : A % 2 ^ r < 2 ^ r := Nat.mod_lt _ (Nat.two_pow_pos r)
+    have h3 : 2 ^ 32 = 2 ^ r * 2 ^ (32 - r) := by rw [← pow_add]; congr 1; omega
+    rw [h3]
+    nlinarith [Nat.two_pow_pos r, Nat.two_pow_pos (32 - r)]
+  have hsum : spreadFuel 32 (rotr 32 A 2) + spreadFuel 32 (rotr 32 A 13) + spreadFuel 32 (rotr 32 A 22)
+      = spreadFuel 32 evn + 2 * spreadFuel 32 odd := by
+    rw [e1, e2, e3, ← hgate]; ring
+  have := spread_sum_even_odd 32 _ _ _ evn odd (hlt 2 (by omega) (by omega)) (hlt 13 (by omega) (by omega))
+    (hlt 22 (by omega) (by omega)) he ho hsum
+  rw [this.1]
+  rfl
 
 /-- Spread of a limb concatenation: `~(a + 2^k·b) = ~a + 4^k·~b` — why `expr_pow4_ip` on spreaded limbs
 with the exponents of `expr_pow2_ip` is the spread of the recomposed word. -/
